@@ -25,9 +25,10 @@ RULE = ('bfs x dev: transitions = edits applied (per query-interleaving variant)
         'where the source changed; states = canonical (kind, indent, src, positioned dump); traces = battery comparisons')
 ASSUMPTIONS = ['fresh twin is built with the same root kind and indent', 'norm=True, pars auto']
 BOUNDS = {
-    'quick': '46 programs; depth 1: 2 codes x (src, fst) + par()/unpar() x {no query, full battery before the edit}; each single query group '
+    'quick': '49 programs; depth 1: 2 codes x (src, fst) + par()/unpar() x {no query, full battery before the edit}; each single query group '
              '(7) before the edit with the 1-code alphabet; depth 2 (no pre-queries): replace/remove/put_slice/insert/docstr/'
-             'line-comment with 1 code after every distinct depth-1 state of 8 programs',
+             'line-comment with 1 code after every distinct depth-1 state of 8 programs; exactly one node (the root or one block) queried '
+             'before each edit of the comment/docstring/remove/insert alphabet; the fresh twin answers the battery in reverse order',
     'thorough': 'depth 1: 6 codes x 3 forms x 9 variants; depth 2: 2 codes from every distinct depth-1 state x 3 variants',
 }
 
